@@ -162,13 +162,18 @@ func genEmptyDir(r *corr.Rand) (setup []string, threads [][]string) {
 // genIO: private handles of several goroutines on one file
 func genIO(r *corr.Rand) (setup []string, threads [][]string) {
 	h := corr.HexS
-	setup = []string{"create " + h("/a"), "h.write 0 68656c6c6f"}
+	setup = []string{"create " + h("/a"), "h.write 0 68656c6c6f", "create " + h("/b"), "h.write 1 776f726c64"}
 	nt := 2 + r.Intn(3)
 	for t := 0; t < nt; t++ {
-		ops := []string{fmt.Sprintf("openfile %s %d 420", h("/a"), corr.Pick(r, []int{2, 2, 0, 0x402}))}
+		// (most goroutines share /a; some work on a file of their own: nothing of one file may be shared with another)
+		f := "/a"
+		if r.Chance(35) {
+			f = "/b"
+		}
+		ops := []string{fmt.Sprintf("openfile %s %d 420", h(f), corr.Pick(r, []int{2, 2, 0, 0x402}))}
 		for k := 0; k < 2+r.Intn(4); k++ {
 			ops = append(ops, corr.Pick(r, []string{"h.write 0 5858", "h.read 0 4", "h.seek 0 0 2", "h.seek 0 9 0", "h.seek 0 -1 2", "h.trunc 0 1", "h.trunc 0 7",
-				"h.stat 0", "h.readat 0 2 0", "h.writeat 0 59 3", "h.writeat 0 59 12", "stat " + h("/a"), "h.sync 0", "h.name 0"}))
+				"h.stat 0", "h.readat 0 2 0", "h.writeat 0 59 3", "h.writeat 0 59 12", "h.writeat 0 5a5a 40", "h.trunc 0 60", "stat " + h("/a"), "h.sync 0", "h.name 0"}))
 		}
 		threads = append(threads, ops)
 	}
